@@ -268,8 +268,8 @@ theorem readPart_cache_filter {cfg : Cfg} {p : Part} (h : p.Inv cfg) {c : List M
     · exact Or.inl hlo
   rcases hcase with ⟨x, hx⟩ | ⟨hlo, x, hx⟩
   · rw [← hx] at hpc hn ⊢
-    have hxb := (consecutiveFrom_append.1 hpc).1.bounds
-    have hcc := (consecutiveFrom_append.1 hpc).2
+    have hxb := (consecutiveFrom_append_iff.1 hpc).1.bounds
+    have hcc := (consecutiveFrom_append_iff.1 hpc).2
     have : first.off = p.firstStart + x.length := hcc.head hf
     refine ⟨by omega, ?_⟩
     have : x.filter q = [] := by
@@ -280,7 +280,7 @@ theorem readPart_cache_filter {cfg : Cfg} {p : Part} (h : p.Inv cfg) {c : List M
     rw [List.filter_append, this]; rfl
   · refine ⟨hlo, ?_⟩
     rw [← hx] at hcons hlen ⊢
-    have hxb := (consecutiveFrom_append.1 hcons).1.bounds
+    have hxb := (consecutiveFrom_append_iff.1 hcons).1.bounds
     have : x.filter q = [] := by
       rw [List.filter_eq_nil_iff]
       intro m hm
@@ -291,25 +291,39 @@ theorem readPart_cache_filter {cfg : Cfg} {p : Part} (h : p.Inv cfg) {c : List M
 
 /-! ## `get_messages_by_offset` -/
 
-/-- General form: the poll starts at or above the first retained segment, or it reaches the end of the
-partition and the cache is not stale. -/
-theorem Part.getByOffset_eq_gen {cfg : Cfg} {p : Part} {off count : Nat} (hseg : SegReadSpec cfg)
-    (h : p.Inv cfg) (hc : 0 < count)
-    (hlo : p.firstStart ≤ off ∨ (p.next ≤ off + count ∧ ∀ c, p.cache = some c → c <:+ p.msgs)) :
-    p.getByOffset off count = (abs p).pollOffset off count := by
+/-- `Part.getByOffset` after the start offset was clamped to the first segment -/
+def Part.getByOffsetFrom (p : Part) (off count : Nat) : List Msg :=
+  if p.cur < off then [] else
+  let hi := p.endOffset off count
+  match p.tryCache off hi with
+  | some ms => ms
+  | none =>
+    match p.filterSegs off hi with
+    | [] => []
+    | [s] => s.getByOffset off count
+    | ss => fromSegs ss off count
+
+theorem Part.getByOffset_unfold (p : Part) (off count : Nat) :
+    p.getByOffset off count =
+      if p.segs.isEmpty then [] else p.getByOffsetFrom (max off p.firstStart) count := rfl
+
+/-- a poll that starts at or above the first segment returns the specified slice — from the cache
+(stale or not) or from the segments -/
+theorem Part.getByOffsetFrom_eq {cfg : Cfg} {p : Part} {off count : Nat} (hseg : SegReadSpec cfg)
+    (h : p.Inv cfg) (hc : 0 < count) (hlo : p.firstStart ≤ off) :
+    p.getByOffsetFrom off count = (abs p).pollOffset off count := by
   rw [readPart_pollOffset h]
   obtain ⟨ht, hn⟩ := h.tiled'
-  have hemp : p.segs.isEmpty = false := by simp [h.segs_ne_nil]
-  unfold Part.getByOffset
+  unfold Part.getByOffsetFrom
   by_cases hcur : p.cur < off
-  · rw [if_pos (Or.inr hcur)]
+  · rw [if_pos hcur]
     symm
     rw [List.filter_eq_nil_iff]
     intro m hm
     have := h.off_bounds m hm
     unfold Part.next at this
     split at this <;> simp <;> omega
-  · rw [if_neg (by simp [hemp, hcur])]
+  · rw [if_neg hcur]
     simp only []
     -- every wanted message is at or below the computed end offset
     have hH : ∀ m ∈ p.msgs, max off p.firstStart ≤ m.off → m.off < max off p.firstStart + count →
@@ -324,11 +338,7 @@ theorem Part.getByOffset_eq_gen {cfg : Cfg} {p : Part} {off count : Nat} (hseg :
       obtain ⟨c, first, hcache, hf, h1, h2, h3, rfl⟩ := readPart_tryCache_some hr
       obtain ⟨-, hcons, -⟩ := h.cache c hcache
       rw [readPart_cache_slice hcons hf h1 h3]
-      have hlo' : p.firstStart ≤ off ∨ c <:+ p.msgs := by
-        rcases hlo with hlo | hlo
-        · exact Or.inl hlo
-        · exact Or.inr (hlo.2 c hcache)
-      obtain ⟨hfs, he⟩ := readPart_cache_filter h hcache hf h3 hlo'
+      obtain ⟨hfs, he⟩ := readPart_cache_filter h hcache hf h3 (Or.inl hlo)
         (fun m => decide (off ≤ m.off ∧ m.off < p.endOffset off count + 1))
         (fun m hm => by simp; omega)
       rw [he]
@@ -349,36 +359,27 @@ theorem Part.getByOffset_eq_gen {cfg : Cfg} {p : Part} {off count : Nat} (hseg :
       · next s he => rw [he]; simp [fromSegs, Nat.ne_of_gt hc]
       · rfl
 
-/-- `get_messages_by_offset` returns the specified slice, for a poll that does not start below the
-first retained segment. -/
+/-- `get_messages_by_offset` returns exactly the specified slice, wherever the poll starts (below the
+first retained offset it starts at the earliest retained message) and whatever the cache holds. -/
 theorem Part.getByOffset_eq {cfg : Cfg} {p : Part} {off count : Nat} (hseg : SegReadSpec cfg)
-    (h : p.Inv cfg) (hc : 0 < count) (hlo : p.firstStart ≤ off) :
-    p.getByOffset off count = (abs p).pollOffset off count :=
-  Part.getByOffset_eq_gen hseg h hc (Or.inl hlo)
+    (h : p.Inv cfg) (hc : 0 < count) :
+    p.getByOffset off count = (abs p).pollOffset off count := by
+  have hemp : p.segs.isEmpty = false := by simp [h.segs_ne_nil]
+  rw [Part.getByOffset_unfold, hemp]
+  simp only [Bool.false_eq_true, if_false]
+  rw [Part.getByOffsetFrom_eq hseg h hc (Nat.le_max_right _ _), readPart_pollOffset h,
+    readPart_pollOffset h]
+  have e : max (max off p.firstStart) p.firstStart = max off p.firstStart := by omega
+  rw [e]
 
 /-! ## first / last / next -/
 
-theorem Part.getFirst_eq_gen {cfg : Cfg} {p : Part} {count : Nat} (hseg : SegReadSpec cfg)
-    (h : p.Inv cfg) (hc : 0 < count)
-    (hF : p.firstStart = 0 ∨ (p.next ≤ count ∧ ∀ c, p.cache = some c → c <:+ p.msgs)) :
-    p.getFirst count = (abs p).pollFirst count := by
-  unfold Part.getFirst SPart.pollFirst
-  apply Part.getByOffset_eq_gen hseg h hc
-  rcases hF with hF | hF
-  · exact Or.inl (by omega)
-  · exact Or.inr ⟨by omega, hF.2⟩
-
 theorem Part.getFirst_eq {cfg : Cfg} {p : Part} {count : Nat} (hseg : SegReadSpec cfg)
-    (h : p.Inv cfg) (hc : 0 < count) (hF : p.firstStart = 0) :
-    p.getFirst count = (abs p).pollFirst count :=
-  Part.getFirst_eq_gen hseg h hc (Or.inl hF)
+    (h : p.Inv cfg) (hc : 0 < count) : p.getFirst count = (abs p).pollFirst count :=
+  Part.getByOffset_eq hseg h hc
 
-/-- `get_last_messages`: right whenever the wanted slice starts at or above the first retained segment,
-and also (it always reads up to the end) whenever the cache is not stale, in particular without cache. -/
-theorem Part.getLast_eq_gen {cfg : Cfg} {p : Part} {count : Nat} (hseg : SegReadSpec cfg)
-    (h : p.Inv cfg) (hc : 0 < count)
-    (hlo : p.firstStart ≤ p.next - min count p.next ∨ ∀ c, p.cache = some c → c <:+ p.msgs) :
-    p.getLast count = (abs p).pollLast count := by
+theorem Part.getLast_eq {cfg : Cfg} {p : Part} {count : Nat} (hseg : SegReadSpec cfg)
+    (h : p.Inv cfg) (hc : 0 < count) : p.getLast count = (abs p).pollLast count := by
   unfold Part.getLast SPart.pollLast
   show p.getByOffset _ _ = (abs p).pollOffset (p.next - min count p.next) (min count p.next)
   cases hi : p.shouldInc with
@@ -386,43 +387,23 @@ theorem Part.getLast_eq_gen {cfg : Cfg} {p : Part} {count : Nat} (hseg : SegRead
     have hn : p.next = p.cur + 1 := by simp [Part.next, hi]
     have e : 1 + p.cur - min count (p.cur + 1) = p.next - min count p.next := by omega
     rw [e, ← hn]
-    apply Part.getByOffset_eq_gen hseg h (by omega)
-    rcases hlo with hlo | hlo
-    · exact Or.inl hlo
-    · exact Or.inr ⟨by omega, hlo⟩
+    exact Part.getByOffset_eq hseg h (by omega)
   | false =>
-    have hn : p.next = 0 := by simp [Part.next, hi]
-    have hcur := h.curZero hi
     have hm := h.msgs_nil_of_not_inc hi
-    have hfs := h.tiled'.2
-    rw [Part.getByOffset_eq hseg h (by omega) (by omega), readPart_pollOffset h, readPart_pollOffset h, hm]
+    rw [Part.getByOffset_eq hseg h (by omega), readPart_pollOffset h, readPart_pollOffset h, hm]
     rfl
 
-theorem Part.getLast_eq {cfg : Cfg} {p : Part} {count : Nat} (hseg : SegReadSpec cfg)
-    (h : p.Inv cfg) (hc : 0 < count) (hlo : p.firstStart ≤ p.next - min count p.next) :
-    p.getLast count = (abs p).pollLast count :=
-  Part.getLast_eq_gen hseg h hc (Or.inl hlo)
-
-/-- without a cache `get_last_messages` is always right -/
-theorem Part.getLast_eq_of_no_cache {cfg : Cfg} {p : Part} {count : Nat} (hseg : SegReadSpec cfg)
-    (h : p.Inv cfg) (hc : 0 < count) (hcache : p.cache = none) :
-    p.getLast count = (abs p).pollLast count :=
-  Part.getLast_eq_gen hseg h hc (Or.inr (by simp [hcache]))
-
-/-- `get_next_messages`; nothing is required of a stored offset equal to `current_offset`. -/
-theorem Part.getNext_eq_gen {cfg : Cfg} {p : Part} {grp : Bool} {cid count : Nat} (hseg : SegReadSpec cfg)
-    (h : p.Inv cfg) (hc : 0 < count)
-    (hnone : lookup (if grp then p.grpOffs else p.consOffs) cid = none →
-      p.firstStart = 0 ∨ (p.next ≤ count ∧ ∀ c, p.cache = some c → c <:+ p.msgs))
-    (hsome : ∀ o, lookup (if grp then p.grpOffs else p.consOffs) cid = some o → o ≠ p.cur →
-      p.firstStart ≤ o + 1 ∨ (p.next ≤ o + 1 + count ∧ ∀ c, p.cache = some c → c <:+ p.msgs)) :
+/-- `get_next_messages`; the model's shortcut for a stored offset equal to `current_offset` agrees
+with the specification because no retained message lies beyond `current_offset`. -/
+theorem Part.getNext_eq {cfg : Cfg} {p : Part} {grp : Bool} {cid count : Nat} (hseg : SegReadSpec cfg)
+    (h : p.Inv cfg) (hc : 0 < count) :
     p.getNext grp cid count = (abs p).pollNext grp cid count := by
   unfold Part.getNext SPart.pollNext
   show _ = (match lookup (if grp then p.grpOffs else p.consOffs) cid with
     | none => (abs p).pollFirst count
     | some o => (abs p).pollOffset (o + 1) count)
   cases hl : lookup (if grp then p.grpOffs else p.consOffs) cid with
-  | none => exact Part.getFirst_eq_gen hseg h hc (hnone hl)
+  | none => exact Part.getFirst_eq hseg h hc
   | some o =>
     simp only []
     by_cases ho : o = p.cur
@@ -434,16 +415,6 @@ theorem Part.getNext_eq_gen {cfg : Cfg} {p : Part} {grp : Bool} {cid count : Nat
       unfold Part.next at this
       split at this <;> simp <;> omega
     · rw [if_neg ho]
-      exact Part.getByOffset_eq_gen hseg h hc (hsome o hl ho)
-
-theorem Part.getNext_eq {cfg : Cfg} {p : Part} {grp : Bool} {cid count : Nat} (hseg : SegReadSpec cfg)
-    (h : p.Inv cfg) (hc : 0 < count)
-    (hlo : match lookup (if grp then p.grpOffs else p.consOffs) cid with
-           | none => p.firstStart = 0
-           | some o => p.firstStart ≤ o + 1) :
-    p.getNext grp cid count = (abs p).pollNext grp cid count := by
-  apply Part.getNext_eq_gen hseg h hc
-  · intro hl; rw [hl] at hlo; exact Or.inl hlo
-  · intro o hl _; rw [hl] at hlo; exact Or.inl hlo
+      exact Part.getByOffset_eq hseg h hc
 
 end Iggy.Log
